@@ -338,8 +338,8 @@ def fxp_max(x, axis=None, out=None, out_like=None, sizing='optimal', method='raw
     """
     """
     def _max_raw(x, n_frac, **kwargs):
-        precision_cast = (lambda m: np.array(m, dtype=object)) if n_frac >= _n_word_max else (lambda m: m)
-        return np.max(x.val, **kwargs) * precision_cast(2**(n_frac - x.n_frac))
+        raw_cast, factor = _accum_cast(x.n_word, n_frac - x.n_frac)
+        return np.max(raw_cast(x.val), **kwargs) * factor
 
     kwargs['axis'] = axis  
     return _function_over_one_var(repr_func=np.max, raw_func=_max_raw, x=x, out=out, out_like=out_like, sizing=sizing, method=method, **kwargs)
@@ -349,8 +349,8 @@ def fxp_min(x, axis=None, out=None, out_like=None, sizing='optimal', method='raw
     """
     """
     def _min_raw(x, n_frac, **kwargs):
-        precision_cast = (lambda m: np.array(m, dtype=object)) if n_frac >= _n_word_max else (lambda m: m)
-        return np.min(x.val, **kwargs) * precision_cast(2**(n_frac - x.n_frac))
+        raw_cast, factor = _accum_cast(x.n_word, n_frac - x.n_frac)
+        return np.min(raw_cast(x.val), **kwargs) * factor
     
     kwargs['axis'] = axis  
     return _function_over_one_var(repr_func=np.min, raw_func=_min_raw, x=x, out=out, out_like=out_like, sizing=sizing, method=method, **kwargs)
@@ -674,8 +674,8 @@ def sort(x, axis=-1, out=None, out_like=None, sizing='optimal', method='raw', **
     """
     """
     def _sort_raw(x, n_frac, **kwargs):
-        precision_cast = (lambda m: np.array(m, dtype=object)) if n_frac >= _n_word_max else (lambda m: m)
-        return np.sort(x.val, **kwargs) * precision_cast(2**(n_frac - x.n_frac))
+        raw_cast, factor = _accum_cast(x.n_word, n_frac - x.n_frac)
+        return np.sort(raw_cast(x.val), **kwargs) * factor
 
     kwargs['axis'] = axis
     return _function_over_one_var(repr_func=np.sort, raw_func=_sort_raw, x=x, out=out, out_like=out_like, sizing=sizing, method=method, **kwargs)
@@ -697,8 +697,8 @@ def transpose(x, axes=None, out=None, out_like=None, sizing='optimal', method='r
     """
     """
     def _transpose_raw(x, n_frac, **kwargs):
-        precision_cast = (lambda m: np.array(m, dtype=object)) if n_frac >= _n_word_max else (lambda m: m)
-        return np.transpose(x.val, axes=kwargs.get('axes', None)) * precision_cast(2**(n_frac - x.n_frac))
+        raw_cast, factor = _accum_cast(x.n_word, n_frac - x.n_frac)
+        return np.transpose(raw_cast(x.val), axes=kwargs.get('axes', None)) * factor
 
     kwargs['axes'] = axes
     return _function_over_one_var(repr_func=np.transpose, raw_func=_transpose_raw, x=x, out=out, out_like=out_like, sizing=sizing, method=method, **kwargs)
@@ -708,7 +708,7 @@ def clip(a, a_min=None, a_max=None, out=None, out_like=None, sizing='optimal', m
     """
     """
     def _clip_raw(x, n_frac, **kwargs):
-        precision_cast = (lambda m: np.array(m, dtype=object)) if n_frac >= _n_word_max else (lambda m: m)
+        raw_cast, factor = _accum_cast(x.n_word, n_frac - x.n_frac)
         val_min = kwargs.pop('a_min', None)
         val_max = kwargs.pop('a_max', None)
 
@@ -716,7 +716,7 @@ def clip(a, a_min=None, a_max=None, out=None, out_like=None, sizing='optimal', m
         val_min = np.asarray(val_min) * 2**x.n_frac if val_min is not None else -np.inf
         val_max = np.asarray(val_max) * 2**x.n_frac if val_max is not None else np.inf
 
-        return utils.clip(x.val, val_min=val_min, val_max=val_max) * precision_cast(2**(n_frac - x.n_frac))
+        return raw_cast(utils.clip(x.val, val_min=val_min, val_max=val_max)) * factor
 
     # (numpy also names the limits `min` and `max`)
     if 'min' in kwargs: a_min = kwargs.pop('min')
@@ -732,8 +732,8 @@ def diagonal(a, offset=0, axis1=0, axis2=1, out=None, out_like=None, sizing='opt
     """
     """
     def _diagonal_raw(x, n_frac, **kwargs):
-        precision_cast = (lambda m: np.array(m, dtype=object)) if n_frac >= _n_word_max else (lambda m: m)
-        return np.diagonal(x.val, **kwargs) * precision_cast(2**(n_frac - x.n_frac))
+        raw_cast, factor = _accum_cast(x.n_word, n_frac - x.n_frac)
+        return np.diagonal(raw_cast(x.val), **kwargs) * factor
 
     kwargs['offset'] = offset
     kwargs['axis1'] = axis1
@@ -768,9 +768,9 @@ def prod(a, axis=None, out=None, out_like=None, sizing='optimal', method='raw', 
     """
     """
     def _prod_raw(x, n_frac, axis=None, **kwargs):
-        precision_cast = (lambda m: np.array(m, dtype=object)) if n_frac >= _n_word_max else (lambda m: m)
         num_of_products = a.size if axis is None else a.shape[axis]
-        return np.prod(x.val, axis=axis, **kwargs) * precision_cast(2**(n_frac - num_of_products * x.n_frac))
+        raw_cast, factor = _accum_cast(num_of_products * x.n_word, n_frac - num_of_products * x.n_frac)
+        return np.prod(raw_cast(x.val), axis=axis, **kwargs) * factor
 
     if not isinstance(a, Fxp):
         a = Fxp(a)
